@@ -1,7 +1,7 @@
 (* Entry point of the extracted runner: [run fn arg].  The Python side finds function
    numbers by parsing the "(* FN name *)" comments below. *)
 From Coq Require Import ZArith List Bool.
-From PyCraft Require Import Base.Res Base.Sx Model.VarInt Model.Versions Model.Position Model.SignedHex Model.Sha1 Model.Tables Model.FieldTypes Model.Nbt Model.Prog Model.CustomPackets Spec.ProtocolTable Model.Frame Model.Aes Model.Cfb8 Model.Rsa Model.Dispatch Model.ExcChain Model.Reactors Model.Negotiate Model.Conc Model.Lifecycle.
+From PyCraft Require Import Base.Res Base.Sx Model.VarInt Model.Versions Model.Position Model.SignedHex Model.Sha1 Model.Tables Model.FieldTypes Model.Nbt Model.Prog Model.CustomPackets Spec.ProtocolTable Model.Frame Model.Aes Model.Cfb8 Model.Rsa Model.Dispatch Model.ExcChain Model.Reactors Model.Negotiate Model.Conc Model.Lifecycle Model.Auth Model.Trackers.
 Import ListNotations.
 Open Scope Z_scope.
 
@@ -187,6 +187,47 @@ Definition of_lconn (c : Lifecycle.conn) : sx :=
   L [L (map (fun th => L [of_tstate (nt_state th); of_bool (nt_interrupt th); of_opt of_nat (nt_prev th)]) (Lifecycle.ths c));
      of_opt of_nat (Lifecycle.cur c); of_opt of_nat (Lifecycle.nxt c); of_bool (Lifecycle.sock c); of_nat (Lifecycle.tcp_count c); of_bool (Lifecycle.active c)].
 
+(* ---- authentication ---- *)
+Definition sx_ostr (s : sx) : option (list Z) := match sx_list s with [] => None | x :: _ => Some (sx_zs x) end.
+Definition of_ostr (o : option (list Z)) : sx := of_opt of_zs o.
+Definition sx_token (s : sx) : token :=
+  {| t_user := sx_ostr (sx_nth s 0); t_access := sx_ostr (sx_nth s 1); t_client := sx_ostr (sx_nth s 2); t_pid := sx_ostr (sx_nth s 3); t_pname := sx_ostr (sx_nth s 4) |}.
+Definition of_token (t : token) : sx := L [of_ostr (t_user t); of_ostr (t_access t); of_ostr (t_client t); of_ostr (t_pid t); of_ostr (t_pname t)].
+Definition sx_body (s : sx) : body :=
+  match sx_z (sx_nth s 0) with
+  | 0 => BResult (sx_zs (sx_nth s 1)) (sx_zs (sx_nth s 2)) (sx_zs (sx_nth s 3)) (sx_zs (sx_nth s 4))
+  | 1 => BError (sx_zs (sx_nth s 1)) (sx_zs (sx_nth s 2)) (sx_ostr (sx_nth s 3))
+  | 2 => BPartialError | 3 => BNonJson | _ => BEmpty
+  end.
+Definition sx_opn (s : sx) : opn :=
+  match sx_z (sx_nth s 0) with
+  | 0 => Authenticate (sx_zs (sx_nth s 1)) (sx_zs (sx_nth s 2)) (sx_bool (sx_nth s 3))
+  | 1 => Refresh | 2 => Validate | 3 => Invalidate | 4 => Join (sx_zs (sx_nth s 1)) | _ => SignOut (sx_zs (sx_nth s 1)) (sx_zs (sx_nth s 2))
+  end.
+Definition of_pval (v : pval) : sx :=
+  match v with PStr s => L [I 0; of_ostr s] | PFresh => L [I 1] | PAgent => L [I 2] | PProfile i n => L [I 3; of_ostr i; of_ostr n] end.
+Definition of_request (q : request) : sx := L [of_bool (q_session q); I (q_endpoint q); L (map (fun kv => L [I (fst kv); of_pval (snd kv)]) (q_payload q))].
+Definition of_aoutcome (o : Auth.outcome) : sx :=
+  match o with
+  | OTrue => L [I 0] | ONone => L [I 1]
+  | OYgg st err => L [I 2; of_opt I st; of_opt (fun e => L [of_zs (fst (fst e)); of_zs (snd (fst e)); of_ostr (snd e)]) err]
+  | OValueError => L [I 3] | OUnclaimed => L [I 4]
+  end.
+
+(* ---- trackers ---- *)
+Definition sx_optz (s : sx) : option Z := match sx_list s with [] => None | x :: _ => Some (sx_z x) end.
+Definition sx_item (s : sx) : item :=
+  {| it_name := sx_z (sx_nth s 0); it_props := sx_z (sx_nth s 1); it_gamemode := sx_z (sx_nth s 2); it_ping := sx_z (sx_nth s 3); it_display := sx_optz (sx_nth s 4) |}.
+Definition of_item (i : item) : sx := L [I (it_name i); I (it_props i); I (it_gamemode i); I (it_ping i); of_opt I (it_display i)].
+Definition sx_paction (s : sx) : paction :=
+  let u := sx_z (sx_nth s 1) in
+  match sx_z (sx_nth s 0) with
+  | 0 => PAdd u (sx_item (sx_nth s 2)) | 1 => PGamemode u (sx_z (sx_nth s 2)) | 2 => PLatency u (sx_z (sx_nth s 2))
+  | 3 => PDisplay u (sx_optz (sx_nth s 2)) | _ => PRemove u
+  end.
+Definition sx_plook (s : sx) : plook := {| px_ := sx_z (sx_nth s 0); py_ := sx_z (sx_nth s 1); pz_ := sx_z (sx_nth s 2); pyaw := sx_z (sx_nth s 3); ppitch := sx_z (sx_nth s 4) |}.
+Definition sx_nat (s : sx) : nat := Z.to_nat (sx_z s).
+
 Definition run (fn : Z) (a : sx) : sx :=
   match fn with
   | 1 => (* FN varint_read : (maxb bytes) *)
@@ -292,5 +333,20 @@ Definition run (fn : Z) (a : sx) : sx :=
   | 96 => (* FN lifecycle_run : (actions) -> (results, final state) *)
       let acts := map sx_action (sx_list (sx_nth a 0)) in
       L [L (map of_lresult (Lifecycle.results acts Lifecycle.init_conn)); of_lconn (Lifecycle.run_actions acts Lifecycle.init_conn)]
+  | 97 => (* FN auth_perform : (token op status body) -> (outcome token requests) *)
+      let r := perform (sx_token (sx_nth a 0)) (sx_opn (sx_nth a 1)) {| r_status := sx_z (sx_nth a 2); r_body := sx_body (sx_nth a 3) |} in
+      L [of_aoutcome (fst (fst r)); of_token (snd (fst r)); L (map of_request (snd r))]
+  | 100 => (* FN playerlist : (actions) -> ((uuid item) ...) in dict order *)
+      L (map (fun kv => L [I (fst kv); of_item (snd kv)]) (fold_left papply (map sx_paction (sx_list (sx_nth a 0))) []))
+  | 101 => (* FN map_patch : (mapw offx offz w patch pixels) *)
+      of_zs (apply_to_map (sx_nat (sx_nth a 0)) (sx_nat (sx_nth a 1)) (sx_nat (sx_nth a 2)) (sx_nat (sx_nth a 3)) (sx_zs (sx_nth a 4)) (sx_zs (sx_nth a 5)))
+  | 102 => (* FN pos_apply : (full_turn flags packet target) *)
+      let r := papply_pos (sx_z (sx_nth a 0)) (sx_z (sx_nth a 1)) (sx_plook (sx_nth a 2)) (sx_plook (sx_nth a 3)) in
+      L [I (px_ r); I (py_ r); I (pz_ r); I (pyaw r); I (ppitch r)]
+  | 103 => (* FN flag_name : (members value) -> names | () ; and what they parse back to *)
+      match name_from_value (sx_pairs (sx_nth a 0)) (sx_z (sx_nth a 1)) with
+      | Some ns => L [of_zs ns; I (parse_names (sx_pairs (sx_nth a 0)) ns)]
+      | None => L []
+      end
   | _ => L [I 99]
   end.
